@@ -103,6 +103,12 @@ def gen_target(rng):
     """(request-target text, class)"""
     c = rng.random()
     base = rng.choice(PATHS)
+    if c < 0.03:
+        # long request targets: '..' early, late (past 2 KB / 4 KB / 8 KB), only in the query, or absent
+        fill = rng.choice(["a", "ab/", "%41", "x."]) * 4000
+        n = rng.choice([2000, 2030, 2046, 2047, 2048, 2049, 2060, 4090, 4100, 8200])
+        body_ = (base + "/" + fill)[:n].rstrip(".")
+        return body_ + rng.choice(["/../x", "/..", "..", "/x", "?x=../y", "/..%2f..%2fsecret", "/..;/x"]), "long"
     if c < 0.07:
         # a constrained query parameter occurs twice and the occurrences disagree: the FIRST one counts (query_pairs + find)
         return base + rng.choice(["?comp=goalstate&comp=x", "?comp=x&comp=goalstate", "?COMP=X&comp=goalstate", "?comp=goalstate&x=1&Comp=certificates",
@@ -488,6 +494,32 @@ def run(ctx):
     add(e2e.audit(e2e.WIRESERVER, uid=0), {}, ["/machine", "/machine"], ops={0: [setr("wireserver", deny)]}, cls="policy-change")
     add(e2e.audit(e2e.HOSTGA, uid=0), {"hostga": deny}, ["/machine", "/machine"], ops={0: [setr("hostga", None)]}, cls="policy-change")
     add(e2e.audit(e2e.OTHER, uid=5), {}, ["/x", "/x"], ops={0: [setr("imds", deny), setr("wireserver", deny)]}, cls="policy-change")
+    # several role assignments with different identities per role: an identity gets the privileges of ITS roles only
+    def two_roles(order, default="deny", mode="enforce"):
+        asg = [{"role": "reader", "identities": ["low"]}, {"role": "admin", "identities": ["high"]}]
+        return {"defaultAccess": default, "mode": mode, "id": "two-roles-%s" % order, "rules": {
+            "privileges": [{"name": "instance", "path": "/metadata/instance"}, {"name": "identity", "path": "/metadata/identity"},
+                           {"name": "certs", "path": "/machine", "queryParameters": {"comp": "certificates"}}],
+            "roles": [{"name": "reader", "privileges": ["instance"]}, {"name": "admin", "privileges": ["identity", "certs"]},
+                      {"name": "nobody-role", "privileges": ["certs"]}],
+            "identities": [{"name": "low", "userName": "nobody"}, {"name": "high", "userName": "root"}, {"name": "proc", "processName": "sleep"}],
+            "roleAssignments": (asg if order == "low-first" else asg[::-1]) + [{"role": "nobody-role", "identities": ["proc", "ghost"]}]}}
+    role_targets = ["/metadata/instance", "/metadata/identity/oauth2/token", "/machine?comp=certificates", "/metadata/identity", "/other"]
+    for order_ in ("low-first", "high-first"):
+        for d_, ep_ in ((e2e.IMDS, "imds"), (e2e.WIRESERVER, "wireserver"), (e2e.HOSTGA, "hostga")):
+            for uid_, adm_, pid_ in ((e2e.NOBODY_UID, 0, "self"), (0, 1, "self"), (e2e.NOBODY_UID, 1, "helper"), (e2e.MISSING_UID, 1, "self")):
+                add(e2e.audit(d_, uid=uid_, is_admin=adm_, pid=pid_), {ep_: two_roles(order_)}, role_targets, cls="multi-role")
+        add(e2e.audit(e2e.IMDS, uid=e2e.NOBODY_UID), {"imds": two_roles(order_, mode="audit")}, role_targets, cls="multi-role")
+        add(e2e.audit(e2e.IMDS, uid=e2e.NOBODY_UID), {"imds": two_roles(order_, default="allow")}, role_targets, cls="multi-role")
+    # long request targets: the traversal test reads the whole path, wherever the '..' is (hyper accepts targets up to 65534 bytes)
+    for n_ in (2040, 2046, 2048, 2049, 2100, 4096) + ((8192, 20000) if not ctx.quick else ()):
+        stem = "/metadata/instance/" + "a" * (n_ - len("/metadata/instance/"))
+        add(e2e.audit(e2e.IMDS, uid=0), {}, [stem + "/../../identity/oauth2/token", stem + "/x", stem + "?x=../y", stem + "..", stem[:1000] + "/../" + stem[1004:]], cls="long")
+        add(e2e.audit(e2e.OTHER, uid=e2e.NOBODY_UID), {}, [stem + "/..", stem[:-2] + "/..%2f..%2fsecret"], cls="long")
+    if not ctx.quick:
+        stem = "/machine/" + "ab/" * 20000
+        add(e2e.audit(e2e.WIRESERVER, uid=0), {}, [stem + "../x", stem + "x", stem[:59000] + "?" + "q" * 900 + ".."], cls="long")
+    add(None, {}, ["/" + "a" * 3000 + "/../x", "/" + "a" * 3000], cls="long")
     # duplicate query keys whose occurrences disagree about a constrained parameter: the first occurrence decides
     def by_query(default, assigned, user):
         return {"defaultAccess": default, "mode": "enforce", "id": "by-query", "rules": {
@@ -763,10 +795,10 @@ def run(ctx):
                 "two addresses where nothing listens} x caller {uid 0 / 65534 / unknown uid, is_admin 1/0/2/-1, two processes} x per-endpoint rule "
                 "document {absent, three modes incl. odd spellings, both defaults, missing sections, privileges by path and query, identities by "
                 "user/group/process/exe, undefined references} x request target {plain, '..' in path, '..' only in query, /provision-like, "
-                "percent-escapes, upper case, absolute-form, signature-exempt, duplicate query keys that disagree about a constrained parameter} x method/body; 1-3 requests per keep-alive connection with, between "
+                "percent-escapes, upper case, absolute-form, signature-exempt, duplicate query keys that disagree about a constrained parameter, long targets (2-8 KB random, fixed 2-4 KB; up to 20 KB / 60 KB in the thorough tier) with '..' at early / late offsets} x method/body; 1-3 requests per keep-alive connection with, between "
                 "requests, a rule change for an endpoint / the key-keeper actor killed (rules lookup failure) / the agent-status actor killed "
                 "(counter failure); plus %d hand-made corner connections: policy flips mid-connection, lookup and counter failures per destination, "
-                "every signature-exempt (method, url) pair of should_skip_sig in 4 spellings x 8 callers, the listener as its own destination (port 3080); "
+                "rule documents with several role assignments naming different identities per role (both orders) x 4 callers x 3 endpoints, every signature-exempt (method, url) pair of should_skip_sig in 4 spellings x 8 callers, the listener as its own destination (port 3080); "
                 "plus multi-connection scenarios: direct connections from 127.0.0.2/3 with the SAME source port as a still-open attributed "
                 "connection, and a caller that exec()s another image between two connections under rules keyed on processName / exePath. non-trivial = anything but a 421 on a direct connection, "
                 "distinct by (method, target, record, rules)" % len(fixed),
